@@ -1,10 +1,111 @@
 (* C02 — Beacon DKG: honest key shares are consistent with the group public key.
-   ONLY property statements; proofs are in Proofs/C02.v. *)
-From Coq Require Import ZArith NArith List Bool.
-From KV Require Import Common.Verdict Model.C02 Proofs.C02.
+   ONLY property statements; proofs are in Proofs/C02.v (+ C02_arith.v, C02_lagrange.v).
+
+   Notation of the statements (all from Proofs/C02.v, over the model Model/C01.v):
+     poly k            the polynomial dealer k shared (a list of coefficients, lowest first)
+     qual              QUAL, the list of qualified dealers
+     D poly k i        = horner (poly k) i                 the share k dealt to i
+     total poly qual i = sum over k in qual of D poly k i  (F(i), F the sum of the polynomials)
+     secret poly qual  = sum over k in qual of poly k's constant term (F(0))
+     recv_ok s         member s's view before phase 6 is consistent with the dealing
+                       (its qualified shares are those of QUAL and equal D k (me s) mod q)
+     pub_ok s i        member s's view before phase 12 is consistent for receiver i (for every k
+                       in its QUAL it holds points that evaluate to D k i at i, or a revealed
+                       share D k i)
+     key_ok s          the accepted points' constant terms / reconstructed keys are f_k(0)
+   G2 points are discrete logarithms modulo q, so "share * G2 = public key share" reads
+   "share = public key share (mod q)". *)
+From Coq Require Import ZArith Znumtheory NArith List Bool Permutation.
+From KV Require Import Common.Verdict Model.C02 Proofs.C02_arith Proofs.C02_lagrange Proofs.C02.
 Import ListNotations.
 Open Scope N_scope.
 
+(* CombineMemberShares of member i and ComputeGroupPublicKeyShares of member j: whenever both
+   views are consistent with one dealing (any n, t, polynomials, QUAL, iteration orders), j
+   finishes phase 12 without a new failure and the public key share it stores for i is the image
+   of i's private key share. *)
+Theorem share_times_G_eq_pubshare : forall c poly qual si sj,
+  recv_ok c poly qual si ->
+  points sj <> [] ->
+  (forall m, In m (operating c sj) -> m <> me sj -> pub_ok c poly qual sj m) ->
+  In (me si) (operating c sj) -> me si <> me sj ->
+  failed (phase12 c sj) = failed sj /\
+  exists v, lookup (me si) (pubsh (phase12 c sj)) = Some v /\
+            (v mod q c = share (phase6 c si) mod q c)%Z.
+Proof. exact Proofs.C02.share_times_G_eq_pubshare. Qed.
+Print Assumptions share_times_G_eq_pubshare.
+
+(* Lagrange interpolation at 0 as computed by calculateLagrangeCoefficient /
+   reconstructIndividualPrivateKeys: any t+1 points (distinct indices in [1,q)) whose values are
+   the sums F(i) of the QUAL polynomials (each of at most t+1 coefficients) give F(0), the sum of
+   the constant terms.  q prime. *)
+Theorem t_plus_1_shares_interpolate :
+  forall (Q : Z) (t : nat) (poly : N -> list Z) (qual : list N) (pts : list (N * Z)),
+  prime Q ->
+  (forall k, In k qual -> (length (poly k) <= S t)%nat) ->
+  NoDup (map fst pts) -> length pts = S t ->
+  (forall p, In p pts -> (0 < Z.of_N (fst p) < Q)%Z) ->
+  (forall p, In p pts -> (snd p mod Q = total poly qual (fst p) mod Q)%Z) ->
+  interpolate0 Q pts = (secret poly qual mod Q)%Z.
+Proof. exact Proofs.C02.t_plus_1_interpolate. Qed.
+Print Assumptions t_plus_1_shares_interpolate.
+
+(* the same for the reconstruction of one misbehaved member's individual key from the revealed
+   shares (phase 11): at least as many correct shares as the polynomial has coefficients *)
+Theorem reconstructed_key_correct : forall (Q : Z) (f : list Z) (sh : list (N * Z)),
+  prime Q ->
+  NoDup (map fst sh) -> (forall p, In p sh -> (0 < Z.of_N (fst p) < Q)%Z) ->
+  (length f <= length sh)%nat ->
+  (forall p, In p sh -> (snd p mod Q = horner f (Z.of_N (fst p)) mod Q)%Z) ->
+  interpolate0 Q sh = (nth 0 f 0 mod Q)%Z.
+Proof. exact Proofs.C02.reconstructed_key_correct. Qed.
+Print Assumptions reconstructed_key_correct.
+
+(* big.Int.ModInverse as modelled (extended Euclid on fuel) is the inverse modulo a prime *)
+Theorem inv_mod_correct : forall q a : Z, prime q -> (a mod q <> 0)%Z ->
+  ((a * inv_mod q a) mod q = 1 /\ 0 <= inv_mod q a < q)%Z.
+Proof. exact Proofs.C02_arith.inv_mod_correct. Qed.
+Print Assumptions inv_mod_correct.
+
+(* CombineGroupPublicKey: the group key is the image of the secret F(0) *)
+Theorem group_key_is_image_of_secret : forall c poly qual s,
+  key_ok c poly qual s -> (gkey (phase12 c s) mod q c = secret poly qual mod q c)%Z.
+Proof. exact Proofs.C02.phase12_key. Qed.
+Print Assumptions group_key_is_image_of_secret.
+
+(* both halves together on the model: the phase-6 shares of any t+1 members with consistent
+   views interpolate to the discrete log of the group key of any member with a consistent view *)
+Theorem shares_interpolate_to_group_key : forall c poly qual (t : nat) (sts : list mstate) sj,
+  prime (q c) ->
+  (forall k, In k qual -> (length (poly k) <= S t)%nat) ->
+  (forall s, In s sts -> recv_ok c poly qual s /\ (0 < Z.of_N (me s) < q c)%Z) ->
+  NoDup (map me sts) -> length sts = S t ->
+  key_ok c poly qual sj ->
+  interpolate0 (q c) (map (fun s => (me s, share (phase6 c s))) sts) = (gkey (phase12 c sj) mod q c)%Z.
+Proof. exact Proofs.C02.shares_interpolate_to_group_key. Qed.
+Print Assumptions shares_interpolate_to_group_key.
+
+(* soundness of the executable form evaluated on the implementation's outputs: when [spec_ok]
+   answers true on a run in scope (at most t corrupt seats, agreement holds), every finished
+   honest member's share is the certified discrete log of the public key share every other
+   finished honest member holds for it, and every sub-list of t+1 finished honest members
+   interpolates to the certified discrete log of everybody's group key *)
+Theorem spec_ok_sound : forall cs, spec_ok cs = true -> in_scope cs = true ->
+  consistent_shares (q (i_cfg (c_in cs))) (gt (i_cfg (c_in cs))) (finished (c_obs cs)).
+Proof. exact Proofs.C02.spec_ok_sound. Qed.
+Print Assumptions spec_ok_sound.
+
+(* runs outside the premise of the property (more than t corrupt seats, or agreement itself
+   fails - reported by C01) never raise an alarm here *)
 Theorem out_of_scope_ok : forall cs, in_scope cs = false -> spec_ok cs = true.
 Proof. exact Proofs.C02.out_of_scope_ok. Qed.
 Print Assumptions out_of_scope_ok.
+
+(* NOT PROVED (kept visible): that the hypotheses recv_ok / pub_ok / key_ok hold of the states
+   reached by [run] for every adversary script with at most t corrupt seats in which agreement
+   holds:
+     forall i, covered i = true -> agreement (run i) -> exists poly qual,
+       forall s, In s (run_states_before_phase12 i) -> failed s = false ->
+         recv_ok .. s /\ key_ok .. s /\ forall m, operating m -> pub_ok .. s m.
+   This is the referee invariant of C01 (Proofs/C01.v); Proofs/C02.v shows it on concrete runs
+   (ex_views_consistent) and every generated run is checked against the real code. *)
